@@ -532,7 +532,7 @@ def make_machine(text, fname, loop_id, which, gen_seed):
                         if others:
                             qual = others[i % len(others)]
             n = max(1, len(m.elems))
-            ei = j % (n + 2) + 1
+            ei = j % (n + 6) + 1          # up to six positions past the end (padding with several blanks)
             ref = '%02d' % ei
             if comp:
                 ref += '-%d' % comp
